@@ -252,6 +252,19 @@ def dynamic_values(run):
             same = np.array_equal(np.asarray(a.array), np.asarray(b.array)) and (a == b) and hash(a) == hash(b)
             run.ob(tag + "/array-and-equality-independent-of-lazy-attributes", core.DISCHARGED if same else core.FAILED, "native-exec", klass="bounded",
                    detail="" if same else "array / equality / hash changed after lazily computed attributes were requested")
+            # objects derived from an operand whose lazy attributes (incl. the hash) are already cached are the same values as objects derived
+            # from an untouched twin: a derived object must not inherit a cache that belongs to its operand
+            for lab, op in (("2.0*X", lambda x: 2.0 * x), ("-X", lambda x: -x), ("X/4.0", lambda x: x / 4.0), ("X.T", lambda x: x.T), ("X.inv", lambda x: x.inv)):
+                try:
+                    twin = mk()
+                    d1, d2 = op(a), op(twin)
+                except Exception:  # noqa: BLE001  (operation not defined for this class)
+                    continue
+                okd = (d1 == d2) and hash(d1) == hash(d2) and np.array_equal(np.asarray(d1.array), np.asarray(d2.array))
+                run.ob(tag + "/derived-objects-do-not-inherit-cached-attributes", core.DISCHARGED if okd else core.FAILED, "native-exec", klass="bounded",
+                       witness=None if okd else {"class": name, "operation": lab},
+                       detail="" if okd else f"{lab} of a {name} whose hash / lazy attributes were already computed differs from {lab} of an equal untouched one: == is {d1 == d2}, "
+                       f"hashes {'equal' if hash(d1) == hash(d2) else 'differ'}, arrays {'equal' if np.array_equal(np.asarray(d1.array), np.asarray(d2.array)) else 'differ'}")
             for how, cp in (("copy", copy.copy), ("deepcopy", copy.deepcopy), ("pickle", lambda o: pickle.loads(pickle.dumps(o)))):
                 c = cp(a)
                 okc = (c == a) and hash(c) == hash(a) and np.array_equal(np.asarray(c.array), np.asarray(a.array))
@@ -270,6 +283,59 @@ def dynamic_values(run):
             run.ob(tag + "/value-semantics", core.ERROR, "native-exec", detail=f"{type(e).__name__}: {e}")
 
 
+def repeated_properties(run):
+    """`repeated evaluation of any property gives identical results regardless of which other properties were computed first`, on the optional
+    precomputed-factor constructor arguments given one at a time (the state in which only part of a lazily completed pair is present)"""
+    M = c10.load()
+    rng = np.random.default_rng(11)
+    n = 4
+    Q, _ = np.linalg.qr(rng.normal(size=(n, n)))
+    w = np.array([3.0, -1.0, 2.0, 0.5])  # deliberately NOT in eigh's ascending order
+    S = Q @ np.diag(w) @ Q.T
+    A = rng.normal(size=(n, n)) + 3 * np.eye(n)
+    P = A @ A.T
+    cases = {"DenseSymmetricMatrix[eigval only]": lambda: M.DenseSymmetricMatrix(S.copy(), eigval=w.copy()),
+             "DenseSymmetricMatrix[eigvec only]": lambda: M.DenseSymmetricMatrix(S.copy(), eigvec=Q.copy()),
+             "DenseSymmetricMatrix[both]": lambda: M.DenseSymmetricMatrix(S.copy(), eigvec=Q.copy(), eigval=w.copy()),
+             "DenseSymmetricMatrix[none]": lambda: M.DenseSymmetricMatrix(S.copy()),
+             "DensePositiveDefiniteMatrix[factor given]": lambda: M.DensePositiveDefiniteMatrix(P.copy(), factor=M.TriangularMatrix(np.linalg.cholesky(P))),
+             "DenseSquareMatrix[none]": lambda: M.DenseSquareMatrix(A.copy())}
+    props = ("eigval", "eigvec", "log_abs_det", "diagonal", "inv", "sqrt", "T", "factor", "lu_and_piv")
+
+    def val(v):
+        if isinstance(v, tuple):
+            return np.concatenate([val(x).ravel() for x in v])
+        return np.asarray(v.array if hasattr(v, "array") else v, dtype=float)
+    for name, mk in cases.items():
+        tag = f"matrices.{name}"
+        bad = []
+        for first in props:
+            try:
+                x = mk()
+                v1 = val(getattr(x, first)).copy()
+            except Exception:  # noqa: BLE001
+                continue
+            for other in props:
+                try:
+                    getattr(x, other)
+                except Exception:  # noqa: BLE001
+                    pass
+            v2 = val(getattr(x, first))
+            if v1.shape != v2.shape or not np.array_equal(v1, v2):
+                bad.append(f"{first} read first gives {np.round(v1.ravel()[:4], 4).tolist()}..., after the other properties were requested {np.round(v2.ravel()[:4], 4).tolist()}...")
+            # the pair stays consistent with the matrix
+            if first in ("eigval", "eigvec") and hasattr(x, "eigvec"):
+                try:
+                    Qx, wx = np.asarray(x.eigvec.array), np.asarray(x.eigval)
+                    if not np.allclose(Qx @ np.diag(wx) @ Qx.T, np.asarray(x.array), atol=1e-9):
+                        bad.append(f"after reading {first} first, eigvec diag(eigval) eigvec^T differs from the matrix (values paired with the wrong vectors)")
+                except Exception:  # noqa: BLE001
+                    pass
+        run.ob(tag + "/properties-identical-on-repeated-evaluation-in-any-order", core.DISCHARGED if not bad else core.FAILED, "native-exec", klass="bounded",
+               detail="" if not bad else bad[0], witness=None if not bad else {"case": name},
+               text="bounded: every property read first, then all others, then again: identical value; eigen pair consistent with the matrix")
+
+
 def run(run_, tier):
     from .. import symla
     run_.assume("A13: utils.hash_array as installed (optional xxhash dependency absent) hashes array.tobytes(), i.e. the values in C order: a function of the values only; "
@@ -282,5 +348,6 @@ def run(run_, tier):
     static_inplace(run_)
     static_eq_hash(run_)
     dynamic_values(run_)
+    repeated_properties(run_)
     deep = [n for n in c10.factories() if any(k in n for k in ("LowRank", "DenseSquare", "DenseDefinite", "DenseSymmetric", "TriangularFactored", "Eigendecomposed", "BlockDiagonal", "MatrixProduct"))]
     c10.run_suite(run_, deep, "quick")
